@@ -88,6 +88,18 @@ def tokOk : XTok → Bool
   | .stop n => nameOk n
   | _ => true
 
+/-- an XML name as the schema uses them: ASCII letter or '_' first, then letters, digits, '_',
+    '.', '-'; no ':' -/
+def xmlNameOk (n : String) : Bool :=
+  match n.toList with
+  | [] => false
+  | c :: cs => (c.isAlpha || c = '_') && (c :: cs).all (fun x => (x.isAlphanum || x = '_' || x = '.' || x = '-') && x.toNat < 128)
+
+/-- attribute values that need no escaping (the only attribute in use is an integer index) -/
+def plainVal (v : List Char) : Bool := v.all fun c => c.isDigit || c = '-'
+
+def attrOk (a : String × List Char) : Bool := xmlNameOk a.1 && plainVal a.2
+
 def xmlHeader : List Char := "<?xml version=\"1.0\" encoding=\"UTF-8\"?>\n".toList
 
 /-! ### Tokenizer (decoder side) -/
